@@ -747,7 +747,7 @@ static int _fetch_and_process_packet(OggVorbis_File *vf,
                  to have a reference point.  Thus the !op_ptr->e_o_s clause
                  above */
 
-              if(vf->seekable && link>0)
+              if(vf->seekable)
                 granulepos-=vf->pcmlengths[link*2];
               if(granulepos<0)granulepos=0; /* actually, this
                                                shouldn't be possible
